@@ -95,6 +95,8 @@ struct Slice {
     kinds: Kinds,
     /// index into model::ACCESS (family Ctx; 0 elsewhere)
     access: usize,
+    /// index into model::CTYPES: the type of the constants (0 = i32)
+    ctype: usize,
 }
 
 impl Slice {
@@ -147,6 +149,7 @@ impl Unit {
             back: None,
             ctx: None,
             access: s.access,
+            ctype: s.ctype,
         };
         match s.family {
             Family::Dag => {}
@@ -170,9 +173,10 @@ fn slices(tier: Tier) -> Vec<Slice> {
     let all_forms: Vec<usize> = (0..FORMS.len()).collect();
     let mut push_a = |family, n, forms: &[usize], places, access| {
         for f in forms {
-            v.push(Slice { family, n, form: *f, places, kinds: Kinds::All, access });
+            v.push(Slice { family, n, form: *f, places, kinds: Kinds::All, access, ctype: 0 });
         }
     };
+
     // the context read written in every other access form (the reference form and
     // the placements are restricted for these)
     for n in 1..=3 {
@@ -201,6 +205,15 @@ fn slices(tier: Tier) -> Vec<Slice> {
             push(Family::Ctx, 4, &[model::F_BARE, model::F_HELPER], Places::Two);
             // (budget: one placement; 29 281 DAGs x 32 kinds = 937 k programs)
             push(Family::Dag, 5, &[model::F_BARE], Places::Alternating);
+        }
+    }
+    // constants of every other TYPE (unit, option, record, string, list, zero-sized
+    // registered type, bool): the complete n <= 3 dag family in two reference forms
+    for n in 1..=3 {
+        for t in 1..model::CTYPES.len() {
+            for f in [model::F_BARE, model::F_HELPER] {
+                v.push(Slice { family: Family::Dag, n, form: f, places: Places::Two, kinds: Kinds::All, access: 0, ctype: t });
+            }
         }
     }
     v
@@ -351,6 +364,7 @@ fn case_json(c: &Case) -> Value {
         "place": place,
         "form": FORMS[c.form],
         "back_edge": c.back.map(|(u, v)| format!("{u}->{v}")),
+        "constant_type": model::CTYPES[c.ctype],
         "ctx_read": c.ctx.map(|(x, k)| json!({"node": x, "through_functions": k, "access": model::ACCESS[c.access]})),
         "expect": format!("{exp:?}"),
         "pkg.roto": pkg,
@@ -991,6 +1005,7 @@ impl Check for C14 {
             .map(|s| {
                 json!({"family": s.family.name(), "n": s.n, "form": FORMS[s.form],
                        "labelled_dags": model::DAG_COUNTS[s.n], "kinds": "all 2^n",
+                       "constant_type": model::CTYPES[s.ctype],
                        "context_access": if s.family == Family::Ctx { Some(model::ACCESS[s.access]) } else { None },
                        "placements": s.places.name()})
             })
